@@ -1,5 +1,5 @@
 (** Property C12 — the front end is total: any source text yields an AST or a diagnostic. *)
-From Tx3 Require Import Base Peg Peg_proofs.
+From Tx3 Require Import Base Peg Peg_proofs Peg_term.
 From Tx3.gen Require Import Grammar.
 
 (** the grammar of the current tree (generated from tx3.pest) is well formed: every rule it
@@ -29,7 +29,28 @@ Theorem C12_verdict_unique : forall g f1 f2 start inp b1 b2,
   accepts g f1 start inp = Some b1 -> accepts g f2 start inp = Some b2 -> b1 = b2.
 Proof. exact accepts_deterministic. Qed.
 
+(** recursive descent over a grammar without left recursion ends on every input: given the three
+    boolean certificates (nullable rules closed under the analysis, a rank that decreases along
+    every call made before input is consumed, WHITESPACE / COMMENT calling no other rule), every
+    expression answers at some fuel for every text, mode and position *)
+Theorem C12_checked_grammar_terminates : forall g nl rk,
+  nl_closed g nl = true -> rank_ok g nl rk = true -> skip_ok g = true ->
+  forall a e inp pos, exists f, run g f a e inp pos <> RFuel.
+Proof. exact checked_grammar_terminates. Qed.
+
+(** the grammar of the current tree carries these certificates (computed here, from the generated
+    grammar): the parser's language is decided for EVERY text - there is a fuel from which on the
+    interpreter answers, and always the same *)
+Theorem C12_every_parse_terminates : forall start inp,
+  exists f b, forall f', (f <= f')%nat -> accepts tx3_grammar f' start inp = Some b.
+Proof.
+  apply (checked_grammar_decides tx3_grammar (nullable_rules tx3_grammar)
+           (rank_of (rank_table tx3_grammar (nullable_rules tx3_grammar)))); vm_compute; reflexivity.
+Qed.
+
 Print Assumptions C12_verdict_independent_of_fuel.
 Print Assumptions C12_verdict_unique.
 Print Assumptions C12_grammar_well_formed.
 Print Assumptions C12_matches_are_prefixes.
+Print Assumptions C12_checked_grammar_terminates.
+Print Assumptions C12_every_parse_terminates.
